@@ -52,16 +52,32 @@ def main():
             print(i, res["error"])
             summary[i] = res
             continue
+        # the checks rewrite evidence/<id>.json and evidence/replays: keep the clean-tree evidence
+        import shutil
+        import tempfile
+        keep = tempfile.mkdtemp(prefix="evidence-keep-")
+        shutil.copytree(os.path.join(V, "evidence"), os.path.join(keep, "evidence"))
         try:
             for c in checks:
                 t0 = time.time()
                 p = sh(f"cd {V} && ./check {c} --tier {a.tier}", timeout=3600, env=env)
-                lines = [l for l in p.stdout.splitlines() if l.startswith(("VIOLATION", "KNOWN-FINDING", "["))]
+                lines = [l for l in p.stdout.splitlines() if l.startswith(("VIOLATION", "["))]
                 det = any(l.startswith("VIOLATION") for l in lines)
-                res["runs"].append({"check": c, "exit": p.returncode, "detected": det, "lines": lines[:6],
+                res["runs"].append({"check": c, "exit": p.returncode, "detected": det, "lines": lines[:12],
                                     "wall_s": round(time.time() - t0, 1)})
                 print(i, c, "DETECTED" if det else "missed", f"exit={p.returncode}", lines[:2])
+                # keep the replay files this run produced beside the seeded change
+                rdir = os.path.join(V, "evidence", "replays")
+                out = os.path.join(d, f"replays_{a.tier}")
+                shutil.rmtree(out, ignore_errors=True)
+                os.makedirs(out, exist_ok=True)
+                for fn in os.listdir(rdir):
+                    if fn.startswith(c + "_"):
+                        shutil.copy(os.path.join(rdir, fn), out)
         finally:
+            shutil.rmtree(os.path.join(V, "evidence"), ignore_errors=True)
+            shutil.copytree(os.path.join(keep, "evidence"), os.path.join(V, "evidence"))
+            shutil.rmtree(keep, ignore_errors=True)
             if a.worktree:
                 sh(f"git -C {REPO} worktree remove --force {target}")
             else:
